@@ -246,6 +246,7 @@ struct Rules<'a> {
     r10: bool,
     r11: bool,
     r12: bool,
+    r14: bool,
     hoists: &'a [Value],
     inlines: &'a [Value],
     for_iters: &'a [Value],
@@ -268,14 +269,49 @@ impl<'a> Rules<'a> {
     }
 }
 
+// R14: `break V` of a `loop` that is the tail expression of a function body is `return V` (the value of the loop is the
+// value of the function). Nested loops and closures are not entered.
+struct BreakToReturn { n: usize }
+impl VisitMut for BreakToReturn {
+    fn visit_expr_mut(&mut self, e: &mut Expr) {
+        match e {
+            Expr::Loop(_) | Expr::While(_) | Expr::ForLoop(_) | Expr::Closure(_) => {}
+            Expr::Break(b) if b.label.is_none() && b.expr.is_some() => {
+                let v = b.expr.take().unwrap();
+                *e = parse_quote!(return #v);
+                self.n += 1;
+            }
+            _ => visit_mut::visit_expr_mut(self, e),
+        }
+    }
+}
+fn tail_loop_breaks_to_returns(block: &mut syn::Block) -> usize {
+    if let Some(syn::Stmt::Expr(Expr::Loop(l), None)) = block.stmts.last_mut() {
+        if l.label.is_none() {
+            let mut v = BreakToReturn { n: 0 };
+            v.visit_block_mut(&mut l.body);
+            return v.n;
+        }
+    }
+    0
+}
+
 impl<'a> VisitMut for Rules<'a> {
     fn visit_item_fn_mut(&mut self, i: &mut syn::ItemFn) {
         let old = std::mem::replace(&mut self.cur_fn, i.sig.ident.to_string());
+        if self.r14 {
+            let n = tail_loop_breaks_to_returns(&mut i.block);
+            if n > 0 { self.log.push(json!({"rule":"R14","file":self.file,"line":0,"what":format!("in {}: {} `break <value>` of the tail `loop` written as `return <value>`", self.cur_fn, n)})); }
+        }
         visit_mut::visit_item_fn_mut(self, i);
         self.cur_fn = old;
     }
     fn visit_impl_item_fn_mut(&mut self, i: &mut syn::ImplItemFn) {
         let old = std::mem::replace(&mut self.cur_fn, i.sig.ident.to_string());
+        if self.r14 {
+            let n = tail_loop_breaks_to_returns(&mut i.block);
+            if n > 0 { self.log.push(json!({"rule":"R14","file":self.file,"line":0,"what":format!("in {}: {} `break <value>` of the tail `loop` written as `return <value>`", self.cur_fn, n)})); }
+        }
         visit_mut::visit_impl_item_fn_mut(self, i);
         self.cur_fn = old;
     }
@@ -328,19 +364,22 @@ impl<'a> VisitMut for Rules<'a> {
         if self.r12 {
             if let Expr::Match(m) = e {
                 let n_guard = m.arms.iter().filter(|a| a.guard.is_some()).count();
-                let two_arm = m.arms.len() == 2 && m.arms[0].guard.is_some() && m.arms[1].guard.is_none() && matches!(m.arms[1].pat, Pat::Wild(_));
+                let na = m.arms.len();
+                let two_arm = na >= 2 && n_guard == 1 && m.arms[na - 2].guard.is_some() && m.arms[na - 1].guard.is_none() && matches!(m.arms[na - 1].pat, Pat::Wild(_));
                 if two_arm {
                     // R12 (two-arm form): `match S { P if G => B, _ => D }` ↦ `match S { P => { if G { B } else { D } } _ => D }`
                     // (the catch-all body D is duplicated verbatim; S is evaluated once)
+                    // (earlier unguarded arms are kept as they are)
                     let scrut = m.expr.clone();
                     let line = Self::line(m.match_token.span);
-                    let pat = m.arms[0].pat.clone();
-                    let g = m.arms[0].guard.as_ref().unwrap().1.clone();
-                    let b = m.arms[0].body.clone();
-                    let d = m.arms[1].body.clone();
+                    let pat = m.arms[na - 2].pat.clone();
+                    let g = m.arms[na - 2].guard.as_ref().unwrap().1.clone();
+                    let b = m.arms[na - 2].body.clone();
+                    let d = m.arms[na - 1].body.clone();
+                    let head: Vec<syn::Arm> = m.arms.iter().take(na - 2).cloned().collect();
                     self.log.push(json!({"rule":"R12","file":self.file,"line":line,
-                        "what":format!("in {}: `match S {{ P if G => B, _ => D }}` written as `match S {{ P => {{ if G {{ B }} else {{ D }} }} _ => D }}` (catch-all body duplicated)", self.cur_fn)}));
-                    *e = parse_quote!(match #scrut { #pat => { if #g { #b } else { #d } } _ => #d });
+                        "what":format!("in {}: `match S {{ .., P if G => B, _ => D }}` written as `match S {{ .., P => {{ if G {{ B }} else {{ D }} }} _ => D }}` (catch-all body duplicated)", self.cur_fn)}));
+                    *e = parse_quote!(match #scrut { #(#head)* #pat => { if #g { #b } else { #d } } _ => #d });
                 } else if n_guard > 0 {
                     let first_unguarded = m.arms.iter().position(|a| a.guard.is_none()).unwrap_or(m.arms.len());
                     let ok_shape = m.arms.iter().skip(first_unguarded).all(|a| a.guard.is_none())
@@ -853,7 +892,7 @@ fn main() {
                 // 2. rules
                 AttrStrip { derive_keep: &derive_keep, log: &mut log, file, apply_r2: rules.contains("R2") }.visit_item_mut(&mut item);
                 let mut r = Rules {
-                    r1: rules.contains("R1"), r3: rules.contains("R3"), r4: rules.contains("R4"), r9: rules.contains("R9"), r10: rules.contains("R10"), r11: rules.contains("R11"), r12: rules.contains("R12"),
+                    r1: rules.contains("R1"), r3: rules.contains("R3"), r4: rules.contains("R4"), r9: rules.contains("R9"), r10: rules.contains("R10"), r11: rules.contains("R11"), r12: rules.contains("R12"), r14: rules.contains("R14"),
                     hoists, inlines, for_iters, log: &mut log, file, cur_fn: String::new(), hoist_hits: vec![0; hoists.len()],
                 };
                 r.visit_item_mut(&mut item);
